@@ -21,6 +21,7 @@ inductive Res where
   | ret (v : Nat) | exc (e : Nat)
   | retNone                -- falls off the end (only if the final call were missing)
   | handlerError           -- the `except` block itself raised (AttributeError while formatting the log message)
+  | formatError            -- the `except` block itself raised while it formatted the exception it had caught
 deriving DecidableEq, Repr
 
 inductive Ev where
@@ -68,6 +69,29 @@ def retry (script : Nat → Outc) (attempts : Int) : Run :=
 def retryFor (named : Bool) (script : Nat → Outc) (attempts : Int) : Run :=
   if handlerNeedsName && !named && loopGuard initAttempt attempts && !isStop (script 0) then ⟨[.call 0], .handlerError⟩
   else retry script attempts
+
+/-- the loop when the handler looks at the exception it caught: a listed exception that cannot be formatted (`printable i = false`:
+    its `__str__` / `__repr__` raises) makes the handler raise instead of counting the attempt -/
+def loopP (printable : Nat → Bool) (script : Nat → Outc) (attempts : Int) : (fuel : Nat) → (attempt : Int) → (i : Nat) → Run
+  | 0, _, i => afterLoop script i
+  | fuel + 1, attempt, i =>
+    if loopGuard attempt attempts then
+      match script i with
+      | .listed _ =>
+        if handlerReadsException && !printable i then ⟨[.call i], .formatError⟩ else
+        let r := loopP printable script attempts fuel (attempt + inc) (i + 1)
+        ⟨.call i :: (handlerEvents ++ r.trace), r.res⟩
+      | o => ⟨[.call i], resOf o⟩
+    else afterLoop script i
+
+/-- `retry_func` for every kind of callable (`named`) and every kind of exception object (`printable`) -/
+def retryForP (named : Bool) (printable : Nat → Bool) (script : Nat → Outc) (attempts : Int) : Run :=
+  if handlerNeedsName && !named && loopGuard initAttempt attempts && !isStop (script 0) then ⟨[.call 0], .handlerError⟩
+  else loopP printable script attempts ((attempts - initAttempt).toNat + 1) initAttempt 0
+
+/-- a call of a function decorated with `@retry(...)`: the wrapper forwards to `retry_func` -/
+def retryDecorated (named : Bool) (printable : Nat → Bool) (script : Nat → Outc) (attempts : Int) : Run :=
+  retryForP named printable script attempts
 
 def Run.calls (r : Run) : Nat := (r.trace.filter (fun e => e != .sleep)).length
 def Run.sleeps (r : Run) : Nat := (r.trace.filter (fun e => e == .sleep)).length
